@@ -14,7 +14,7 @@ RULE = (
 ASSUMPTIONS = ["fastcache is not installed in this image, so the cachedsearch wrappers are pass-through (stated, not assumed away: they are still compared call by call)",
                "names/reprs in CountError cases are digit-free so the numbers in the message are unambiguous"]
 GATES = ["mon.C14.findall", "mon.C14.find", "mon.C14.by_attr", "mon.C14.cached", "C14.bound_equal_count", "C14.counterror_min", "C14.counterror_max",
-         "C14.attr_missing_skipped", "C14.find_none", "C14.find_one", "C14.find_many", "C14.none_value_with_missing_attr", "C14.unhashable_value", "C14.after_mutation", "C14.variant.getattr", "C14.variant.property", "C14.variant.valeq", "C14.variant.slots", "C14.variant.unhashable"]
+         "C14.attr_missing_skipped", "C14.find_none", "C14.find_one", "C14.find_many", "C14.none_value_with_missing_attr", "C14.unhashable_value", "C14.after_mutation", "C14.variant.getattr", "C14.variant.property", "C14.variant.valeq", "C14.variant.slots", "C14.variant.unhashable", "C14.variant.tuplename"]
 
 
 def plan(tier, seed, jobs):
@@ -197,7 +197,7 @@ def check_tree(ctx, nodes, tags, ch, s, case, bounds_all=True, rng=None):
     r2 = call(cachedsearch.findall_by_attr, nodes[s], "x", "tag", 2, None, None)
     ok &= same("positional", r1, r2, {"start": s})
     exp = [x for x in pre_all if x in R.admitted(ch, s, frozenset(), None) and True]
-    r1 = call(search.findall_by_attr, nodes[s], "nm")
+    r1 = call(search.findall_by_attr, nodes[s], ("nm", "x") if case.get("variant") == "tuplename" else "nm")
     ok &= judge("findall_by_attr-default-name", r1, exp, None, None, {"start": s, "fn": "findall_by_attr default name"})
     return ok
 
@@ -208,7 +208,7 @@ def norm_tags(tags):
 
 
 _VARIANTS = {}
-VARIANTS = ("plain", "getattr", "property", "valeq", "slots", "unhashable")
+VARIANTS = ("plain", "getattr", "property", "valeq", "slots", "unhashable", "tuplename")
 
 
 def variant_class(variant):
@@ -266,6 +266,11 @@ def variant_class(variant):
                     return isinstance(other, UnhashableNode) and other.name == self.name
 
             _VARIANTS[variant] = UnhashableNode
+        elif variant == "tuplename":
+            from anytree import Node
+
+            # coordinate-like names: they are formatted into reprs, and reprs into CountError messages
+            _VARIANTS[variant] = Node
         elif variant == "slots":
             from anytree import LightNodeMixin
 
@@ -288,9 +293,9 @@ def build(par, tags, variant="plain"):
     cls = variant_class(variant)
     nodes = []
     for i, p in enumerate(par):
-        kw = {"name": "nm"}
+        kw = {"name": ("nm", "x") if variant == "tuplename" else "nm"}
         if tags[i] is not ABSENT:
-            if variant in ("plain", "valeq", "unhashable", "slots"):
+            if variant in ("plain", "valeq", "unhashable", "slots", "tuplename"):
                 kw["tag"] = tags[i]
             else:
                 kw["_store"] = {"tag": tags[i]}
